@@ -223,6 +223,9 @@ class Normalizer:
             self._replace_node(f, self.fold_new_constants(f))
         for f in list(repo.funcs.values()):
             self._replace_node(f, self.canonical_syntax(f))
+        self.objects: t.Dict[t.Tuple[str, str], Cls] = {}
+        for f in list(repo.funcs.values()):
+            self._replace_node(f, self.find_objects(f))
         # N1 - callers first see the raw helper bodies; nested helper calls are resolved by iterating
         for _ in range(6):
             changed = False
@@ -233,6 +236,8 @@ class Normalizer:
                     changed = True
             if not changed:
                 break
+        for f in list(repo.funcs.values()):
+            self._replace_node(f, self.dissolve_objects(f))
         self._drop_unreferenced()
         for f in list(repo.funcs.values()):
             self._replace_node(f, self.guard_form(f))
@@ -242,6 +247,8 @@ class Normalizer:
             self._replace_node(f, self.unflag_loops(f))
         for f in list(repo.funcs.values()):
             self._replace_node(f, self.equivalent_calls(f))
+        for f in list(repo.funcs.values()):
+            self._replace_node(f, self.unroll_tables(f))
         for f in list(repo.funcs.values()):
             self._replace_node(f, self.desugar_listcomp(f))
         for f in list(repo.funcs.values()):
@@ -575,12 +582,27 @@ class Normalizer:
             h = self.repo.funcs.get(f"{f.mod.name}.{fn.id}" if f.mod.name else fn.id)
             if h is not None and h.qual in self.new_funcs and h is not f:
                 return h.node, h, None, h.qual
+            if h is None and fn.id not in (stored_names(f.node) | {a.arg for a in _params(f.node)}):
+                # a new helper imported from another module of the package: inlinable when every free name of its body
+                # means the same thing in the calling module
+                r0 = self.repo.resolve_name(fn.id, f.mod)
+                if isinstance(r0, Func) and r0.qual in self.new_funcs and r0.cls is None and r0 is not f and self._portable(r0.node, r0.mod, f.mod):
+                    return r0.node, r0, None, r0.qual
             return None
         if isinstance(fn, ast.Attribute) and isinstance(fn.value, ast.Name):
             owner: t.Optional[Cls] = None
             recv: t.Optional[ast.expr] = None
             if fn.value.id in ("self", "cls") and f.cls is not None:
                 owner, recv = f.cls, fn.value
+            elif (f.qual, fn.value.id) in getattr(self, "objects", {}):
+                # a local instance of a helper class that the function creates and keeps to itself (N21)
+                oc = self.objects[(f.qual, fn.value.id)]
+                hm = oc.find_method(fn.attr)
+                if hm is None or hm.is_staticmethod or hm.is_classmethod or hm.qual not in self.new_funcs:
+                    return None
+                if hm.mod is not f.mod and not self._portable(hm.node, hm.mod, f.mod):
+                    return None
+                return hm.node, hm, fn.value, hm.qual
             else:
                 r = self.repo.resolve_name(fn.value.id, f.mod)
                 if isinstance(r, Cls) and r.mod is f.mod:
@@ -606,6 +628,30 @@ class Normalizer:
                 return None
             return h.node, h, fn.value, h.qual
         return None
+
+    def _portable(self, h: FuncNode, home: Mod, target: Mod) -> bool:
+        """Every free name of the helper body resolves to the same thing in the target module (same external import,
+        same package object) or is a builtin: the body can be moved there unchanged."""
+        import builtins
+
+        bound = stored_names(h) | {a.arg for a in _params(h)}
+        for n in ast.walk(h):
+            if isinstance(n, ast.Name) and isinstance(n.ctx, ast.Load) and n.id not in bound:
+                if n.id in home.imports or n.id in target.imports:
+                    if home.imports.get(n.id) != target.imports.get(n.id):
+                        return False
+                    continue
+                a_, b_ = self.repo.resolve_name(n.id, home), self.repo.resolve_name(n.id, target)
+                if a_ is None and b_ is None and hasattr(builtins, n.id):
+                    continue
+                if a_ is None or b_ is None:
+                    return False
+                if a_ is b_:
+                    continue
+                if isinstance(a_, tuple) and isinstance(b_, tuple) and a_[:3] == b_[:3]:
+                    continue
+                return False
+        return True
 
     def _eligible(self, h: FuncNode) -> bool:
         for d in h.decorator_list:
@@ -812,8 +858,10 @@ class Normalizer:
                 new_s = _replace_expr(s, unit, t.cast(ast.expr, expr))
                 self._done(f, label, call)
                 return self._again(f, prologue + [new_s], nested)
-            if deferred or not isinstance(s, (ast.Assign, ast.AnnAssign, ast.AugAssign, ast.Return, ast.Expr)):
-                raise NotInlinable("statement helper called from a compound statement header or deferred position")
+            # an `if` test, a `for` iterable, a raise / assert operand are evaluated once, before the statement's blocks:
+            # the helper's statements can run in front of it (not so a `while` test, which is evaluated again)
+            if deferred or not isinstance(s, (ast.Assign, ast.AnnAssign, ast.AugAssign, ast.Return, ast.Expr, ast.If, ast.For, ast.Raise, ast.Assert)):
+                raise NotInlinable("statement helper called from a loop test or deferred position")
             # evaluation order: no other call of the statement may be evaluated before the helper call
             inside = {id(x) for x in ast.walk(unit)}
             upos = (getattr(unit, "lineno", 0), getattr(unit, "col_offset", 0))
@@ -959,6 +1007,217 @@ class Normalizer:
         return new if hit[0] else None
 
     # ------------------------------------------------------------------------------------------ N8
+    # ------------------------------------------------------------------------------------------ N21
+    def find_objects(self, f: Func) -> t.Optional[FuncNode]:
+        """A local `obj = C(args)` of a helper class C that is not in the inventory, whose only uses are `obj.attr` and
+        `obj.method(...)` (it is not passed on, returned or stored), is dissolved: the constructor call becomes
+        `obj.__init__(args)`, N1 inlines __init__ and the methods with self := obj, and dissolve_objects turns every
+        `obj.attr` into a local `obj__attr` (scalar replacement of an aggregate that does not escape)."""
+        new_classes = getattr(self.repo, "new_classes", set())
+        if not new_classes:
+            return None
+        fn = f.node
+        cands: t.Dict[str, t.Optional[Cls]] = {}
+        for n in _walk_no_scopes(fn):
+            if isinstance(n, (ast.Assign, ast.AnnAssign)) and isinstance(n.value, ast.Call) and isinstance(n.value.func, ast.Name):
+                tg = n.targets[0] if isinstance(n, ast.Assign) and len(n.targets) == 1 else getattr(n, "target", None)
+                r = self.repo.resolve_name(n.value.func.id, f.mod)
+                if isinstance(tg, ast.Name) and isinstance(r, Cls) and r.qual in new_classes and not r.base_exprs and not r.is_dataclass and "__init__" in r.methods and (r.mod is f.mod or all(self._portable(m_.node, r.mod, f.mod) for m_ in r.methods.values())):
+                    cands[tg.id] = None if tg.id in cands else r
+        cands = {k: v for k, v in cands.items() if v is not None}
+        if not cands:
+            return None
+        parents: t.Dict[int, ast.AST] = {}
+        for p_ in ast.walk(fn):
+            for c_ in ast.iter_child_nodes(p_):
+                parents[id(c_)] = p_
+        ok: t.Dict[str, Cls] = {}
+        for name, cls in cands.items():
+            assert cls is not None
+            fine = True
+            nstores = 0
+            for n in ast.walk(fn):
+                if isinstance(n, ast.Name) and n.id == name:
+                    par = parents.get(id(n))
+                    if isinstance(n.ctx, ast.Store):
+                        nstores += 1
+                        continue
+                    if not (isinstance(par, ast.Attribute) and par.value is n):
+                        fine = False
+                        break
+            # inside the class `self` must not escape either
+            for m in cls.methods.values():
+                if m.is_staticmethod or m.is_classmethod or not self._eligible(m.node) or not m.params:
+                    fine = False
+                    break
+                mp: t.Dict[int, ast.AST] = {}
+                for p_ in ast.walk(m.node):
+                    for c_ in ast.iter_child_nodes(p_):
+                        mp[id(c_)] = p_
+                for n in ast.walk(m.node):
+                    if isinstance(n, ast.Name) and n.id == m.params[0]:
+                        par = mp.get(id(n))
+                        if not (isinstance(par, ast.Attribute) and par.value is n):
+                            fine = False
+            if fine and nstores == 1:
+                ok[name] = cls
+        if not ok:
+            return None
+        new = copy.deepcopy(fn)
+
+        class R(ast.NodeTransformer):
+            def visit_Assign(self, n: ast.Assign) -> ast.AST:
+                return self._ctor(n, n.targets[0] if len(n.targets) == 1 else None)
+
+            def visit_AnnAssign(self, n: ast.AnnAssign) -> ast.AST:
+                return self._ctor(n, n.target)
+
+            def _ctor(self, n: t.Any, tg: t.Optional[ast.expr]) -> ast.AST:
+                v = n.value
+                if isinstance(tg, ast.Name) and tg.id in ok and isinstance(v, ast.Call) and isinstance(v.func, ast.Name) and v.func.id == ok[tg.id].name:
+                    call = ast.Call(func=ast.Attribute(value=ast.Name(id=tg.id, ctx=ast.Load()), attr="__init__", ctx=ast.Load()), args=v.args, keywords=v.keywords)
+                    return ast.copy_location(ast.Expr(value=ast.copy_location(call, v)), n)
+                return n
+
+        R().visit(new)
+        ast.fix_missing_locations(new)
+        for name, cls in ok.items():
+            self.objects[(f.qual, name)] = cls
+            self.log.setdefault("inlined", []).append(f"{f.qual}: local {name} of helper class {cls.name} dissolved into its fields")
+        return new
+
+    def dissolve_objects(self, f: Func) -> t.Optional[FuncNode]:
+        names = {n for (q, n) in getattr(self, "objects", {}) if q == f.qual}
+        if not names:
+            return None
+        # every method call must have been inlined; otherwise leave the attribute form in place
+        for n in ast.walk(f.node):
+            if isinstance(n, ast.Call) and isinstance(n.func, ast.Attribute) and isinstance(n.func.value, ast.Name) and n.func.value.id in names and n.func.attr in self.objects[(f.qual, n.func.value.id)].methods:
+                return None
+        new = copy.deepcopy(f.node)
+
+        class A(ast.NodeTransformer):
+            def visit_Attribute(self, node: ast.Attribute) -> ast.AST:
+                self.generic_visit(node)
+                if isinstance(node.value, ast.Name) and node.value.id in names:
+                    return ast.copy_location(ast.Name(id=f"{node.value.id}__{node.attr}", ctx=node.ctx), node)
+                return node
+
+        A().visit(new)
+        return new
+
+    # ------------------------------------------------------------------------------------------ N19
+    def unroll_tables(self, f: Func) -> t.Optional[FuncNode]:
+        """A comprehension or a straight-line for loop over a *literal table* - a tuple / list display of at most 8 rows,
+        written in place or bound once to a local / module constant that is never changed - is its instances:
+            [g(a, b) for a, b in ((x1, y1), (x2, y2))]      ->  [g(x1, y1), g(x2, y2)]
+            for v in (p, q, r): acc += h(v)                 ->  acc += h(p); acc += h(q); acc += h(r)
+        Row elements must be pure (names, attributes, constants); the loop variables must not be assigned in the body
+        or used after the loop; no break / continue / else."""
+        fn = f.node
+        repo = self.repo
+        hit = [False]
+        stores: t.Dict[str, int] = {}
+        for n in _walk_no_scopes(fn):
+            if isinstance(n, ast.Name) and isinstance(n.ctx, (ast.Store, ast.Del)):
+                stores[n.id] = stores.get(n.id, 0) + 1
+        params = {a.arg for a in _params(fn)}
+        mutated = {n.func.value.id for n in ast.walk(fn) if isinstance(n, ast.Call) and isinstance(n.func, ast.Attribute) and isinstance(n.func.value, ast.Name)}
+
+        def table(it: ast.expr) -> t.Optional[t.List[ast.expr]]:
+            if isinstance(it, ast.Name):
+                if it.id in params:
+                    return None
+                if it.id in stores:
+                    if stores[it.id] != 1 or it.id in mutated:
+                        return None
+                    defs = [n for n in fn.body if isinstance(n, (ast.Assign, ast.AnnAssign)) and n.value is not None and [unparse(x) for x in (n.targets if isinstance(n, ast.Assign) else [n.target])] == [it.id]]
+                    if len(defs) != 1:
+                        return None
+                    it = t.cast(ast.expr, defs[0].value)
+                else:
+                    r = repo.resolve_name(it.id, f.mod)
+                    if not (isinstance(r, tuple) and r[0] == "const" and len(r) == 3 and r[1] is f.mod):
+                        return None
+                    from .load import mutated_global
+
+                    if mutated_global(r[1], it.id):
+                        return None
+                    it = r[2]
+            if not isinstance(it, (ast.Tuple, ast.List)) or not (1 <= len(it.elts) <= 8):
+                return None
+            rows = list(it.elts)
+            for r_ in rows:
+                cells = r_.elts if isinstance(r_, (ast.Tuple, ast.List)) else [r_]
+                if any(isinstance(c, ast.Starred) or not (_is_pure_path(c) or isinstance(c, ast.Constant) or (isinstance(c, ast.UnaryOp) and isinstance(c.operand, ast.Constant))) for c in cells):
+                    return None
+            return rows
+
+        def binding(target: ast.expr, row: ast.expr) -> t.Optional[t.Dict[str, ast.expr]]:
+            if isinstance(target, ast.Name):
+                return {target.id: row}
+            if isinstance(target, (ast.Tuple, ast.List)) and isinstance(row, (ast.Tuple, ast.List)) and len(target.elts) == len(row.elts) and all(isinstance(x, ast.Name) for x in target.elts):
+                return {t.cast(ast.Name, x).id: v for x, v in zip(target.elts, row.elts)}
+            return None
+
+        def inst(node: ast.AST, env: t.Dict[str, ast.expr]) -> ast.AST:
+            class S_(ast.NodeTransformer):
+                def visit_Name(self, n: ast.Name) -> ast.AST:
+                    if isinstance(n.ctx, ast.Load) and n.id in env:
+                        return copy.deepcopy(env[n.id])
+                    return n
+
+            return S_().visit(copy.deepcopy(node))
+
+        class C(ast.NodeTransformer):
+            def visit_ListComp(self, node: ast.ListComp) -> ast.AST:
+                self.generic_visit(node)
+                if len(node.generators) != 1 or node.generators[0].ifs or node.generators[0].is_async:
+                    return node
+                g = node.generators[0]
+                rows = table(g.iter)
+                if rows is None:
+                    return node
+                envs = [binding(g.target, r_) for r_ in rows]
+                if any(e is None for e in envs):
+                    return node
+                hit[0] = True
+                return ast.copy_location(ast.List(elts=[t.cast(ast.expr, inst(node.elt, t.cast(t.Dict[str, ast.expr], e))) for e in envs], ctx=ast.Load()), node)
+
+        def block(stmts: t.List[ast.stmt]) -> t.List[ast.stmt]:
+            out: t.List[ast.stmt] = []
+            for i, s_ in enumerate(stmts):
+                if isinstance(s_, (ast.FunctionDef, ast.AsyncFunctionDef, ast.ClassDef)):
+                    out.append(s_)
+                    continue
+                for fld in ("body", "orelse", "finalbody"):
+                    blk = getattr(s_, fld, None)
+                    if isinstance(blk, list) and blk and isinstance(blk[0], ast.stmt):
+                        setattr(s_, fld, block(blk))
+                if isinstance(s_, ast.Try):
+                    for h in s_.handlers:
+                        h.body = block(h.body)
+                if isinstance(s_, ast.For) and not s_.orelse:
+                    rows = table(s_.iter)
+                    tn = {x.id for x in ast.walk(s_.target) if isinstance(x, ast.Name)}
+                    simple = not any(isinstance(x, (ast.Break, ast.Continue, ast.Return, ast.FunctionDef, ast.AsyncFunctionDef, ast.Lambda, ast.For, ast.While)) for b_ in s_.body for x in ast.walk(b_))
+                    reassigned = any(isinstance(x, ast.Name) and x.id in tn and isinstance(x.ctx, ast.Store) for b_ in s_.body for x in ast.walk(b_))
+                    used_after = any(isinstance(x, ast.Name) and x.id in tn for later in stmts[i + 1:] for x in ast.walk(later)) or any(stores.get(n_, 0) > 1 for n_ in tn)
+                    if rows is not None and simple and not reassigned and not used_after:
+                        envs = [binding(s_.target, r_) for r_ in rows]
+                        if all(e is not None for e in envs):
+                            for e in envs:
+                                out.extend(t.cast(ast.stmt, inst(b_, t.cast(t.Dict[str, ast.expr], e))) for b_ in s_.body)
+                            hit[0] = True
+                            continue
+                out.append(s_)
+            return out
+
+        new = copy.deepcopy(fn)
+        C().visit(new)
+        new.body = block(list(new.body))
+        return new if hit[0] else None
+
     def desugar_listcomp(self, f: Func) -> t.Optional[FuncNode]:
         """X = [ELT for T in IT if C]   ->   X = [];  for T in IT:  if C:  X.append(ELT)
         (one generator, not over range(): index comprehensions over byte windows are read as repeated reads instead)."""
